@@ -40,7 +40,9 @@ SPEC = {
     "rule": "quick: ~130 geometries (convex, star-shaped non-convex, polygon with hole, hole with island, two polygons; both "
             "global orientations) x cell sizes {1, 1/2, 3/4, 1x1/2, 3/4x1/2, 2, 5/4x3/4, 3/8} x clip {none, left, right} x "
             "points of interest {all, some, none}; vertex lattices 1/16, 1/32 and 1/10 (non-dyadic); + loops inside one cell; "
-            "+ mis-oriented variants (one reversed segment, extra segment from a used vertex) x 3 clips; + exhaustive "
+            "+ mis-oriented variants (one reversed segment, extra segment from a used vertex) x 3 clips; + nested loops turning the "
+            "same way x {left, right} (must be rejected by the clip step); segment / point-of-interest cells listed in scrambled "
+            "order; + exhaustive "
             "`orient` lists (all lists of <= 3 pairs over 3 vertices, random longer ones). thorough: x8. "
             "distinct_nontrivial = distinct implementation transcripts.",
     "not_proved": [
@@ -347,6 +349,30 @@ def chevron_cases():
     return cases
 
 
+def inconsistent_nesting_cases(rng, count):
+    """each loop consistently oriented but the hole turns the same way as the outer loop: with clipping there is no
+    side to keep — the clip step must answer with an error (between-boundary inconsistency)"""
+    cases = []
+    k = 0
+    tries = 0
+    while k < count and tries < 60 * count:
+        tries += 1
+        g = gg.random_geometry(rng, rng.choice(["hole", "island"]), reverse=rng.random() < 0.5)
+        if g is None:
+            continue
+        loops = [g.loops[0], g.loops[1][::-1]] + g.loops[2:]
+        g2 = gg.Geometry(loops, gg.choose_poi(rng, loops, rng.choice(["all", "none", "some"])), g.cell, "inconsistent-nesting")
+        g2.interior_left, g2.poi_mode = g.interior_left, "mixed"
+        if not g2.general_position():
+            continue
+        k += 1
+        for clip in ("left", "right"):
+            cases.append(Case(f"nesting-{k}-{clip}", [g2.line("grisubal", clip)], oracle="c16",
+                              meta={"geo": g2, "clip": clip, "expect": "reject", "sig": "inconsistent-nesting",
+                                    "why": "the second loop is nested in the first and turns the same way", "facts": facts_of(g2)}))
+    return cases
+
+
 # ---- `orient`: correspondence of detect_orientation_issue ------------------------------------
 
 def orient_expected(segs):
@@ -462,6 +488,7 @@ def run(tier, seed):
     parts.append(("loops inside one grid cell", gg.impl_campaign(tiny_loop_cases(rng, 8 * mult), oracle)))
     parts.append(("directed: nested V dips through one cell side", gg.impl_campaign(chevron_cases(), oracle)))
     parts.append(("mis-oriented boundaries", gg.impl_campaign(misoriented_cases(rng, 40 * mult), oracle)))
+    parts.append(("inconsistently nested loops with clipping", gg.impl_campaign(inconsistent_nesting_cases(rng, 30 * mult), oracle)))
     return hv.merge_results(parts)
 
 
